@@ -324,11 +324,17 @@ class OverridableProbe(Probe):
 
         This is used internally.
         """
+        # A subscriber may call the probed function again: this delivery then
+        # happens inside another one, which has its own value to supply
+        enclosing = getattr(self, "_value", ABSENT)
         self._value = ABSENT
-        super()._emit(data, acc=acc, element=element)
-        # self._value is set by override(), but this will only work if the pipeline
-        # is synchronous
-        return self._value
+        try:
+            super()._emit(data, acc=acc, element=element)
+            # self._value is set by override(), but this will only work if the
+            # pipeline is synchronous
+            return self._value
+        finally:
+            self._value = enclosing
 
 
 def probing(
